@@ -3,18 +3,29 @@ From Coq Require Import List Arith Bool.
 Import ListNotations.
 From LinDBV.C07 Require Import Model Proofs.
 
-(* every history of appends, whole replica steps, flushes in the flush checker's order, log sync and crashes at any
-   event boundary (between the data commit and the log acknowledgement included): the log is never acknowledged nor
-   collected beyond the stored sequence, every appended entry is stored exactly once or still in the log above the
-   acknowledged position, none is stored twice, and what is stored resolves through the flushed dictionaries *)
+(* every history of appends (of decodable and of undecodable entries), whole replica steps, flushes in the flush
+   checker's order, log sync and crashes at any event boundary (between the data commit and the log acknowledgement
+   included): the log is never collected beyond its acknowledged position; an acknowledged entry that carries rows is
+   stored (the acknowledged position passes the stored sequence only over entries that cannot be decoded); every
+   decodable entry is stored exactly once or still in the log above the acknowledged position; an undecodable one is
+   never stored; nothing is stored twice; what is stored resolves through the flushed dictionaries *)
 Theorem C07_no_loss_no_replay evs : Forall atomic evs -> run_ok init evs = true ->
   let s := run evs in
-  gcd s <= k s /\ k s <= pseq s /\
-  (forall n, 1 <= n <= la s -> (count n (pdata s) = 1 /\ n <= pseq s) \/ (count n (pdata s) = 0 /\ k s < n /\ gcd s < n)) /\
+  gcd s <= k s /\
+  (forall n, 1 <= n <= la s -> good s n = true ->
+     (count n (pdata s) = 1 /\ n <= pseq s) \/ (count n (pdata s) = 0 /\ k s < n /\ gcd s < n)) /\
+  (forall n, good s n = false -> count n (pdata s) = 0) /\
   (forall n, count n (pdata s) <= 1) /\
   (forall n, In n (pdata s) -> In (name_of s n) (ndisk s)).
 Proof. exact (no_loss_no_replay evs). Qed.
 Print Assumptions C07_no_loss_no_replay.
+
+(* the hypotheses are met by a history with an undecodable entry, acknowledged only when it directly follows the
+   acknowledged position, and a crash *)
+Example C07_nonvacuous_bad_entry :
+  let evs := [Append false; AppendBad; Append false; Replica; Replica; Replica; MetaFlush; FlushCommit; FlushAck; AppendBad; Replica; Restart; Append false; Replica] in
+  let s := run evs in Forall atomic evs /\ run_ok init evs = true /\ (la s, k s, pseq s, seq s, pdata s, bad s) = (5, 4, 3, 5, [3; 1], [4; 2]).
+Proof. vm_compute. split; [repeat constructor|split; reflexivity]. Qed.
 
 (* flushes racing with a replica step: the statement is false of the code as it is (known findings) *)
 Theorem C07_lost_write_refuted :
